@@ -20,6 +20,7 @@ RULE = (
     "displaced 0 / 1 % / 10 % off the curve for closest-parameter queries (vs a 2001-point dense sampling), and OnCurve "
     "edges between lattice parameter pairs read back from the written file; the same on curve objects that were evaluated "
     "and then translated/rotated/scaled/mirrored (histories of <= 2 steps). non-trivial = a distinct evaluated relation"
+    " Kinds analytic_neg / circle_neg: parameter 0 inside the range."
 )
 ASSUMPTIONS = [
     "AnalyticCurve.get_length is by definition a 100-segment polyline: additivity compared to rel 1e-3; point-defined curves to rel 1e-9",
